@@ -557,6 +557,23 @@ class Rewriter:
                             turbo = text_of(toks[g2:g3 + 1])
                             g = nxt(g3)
                         if g < n and is_p(toks[g], '(') and nxt(g) < n and is_p(toks[nxt(g)], ')'):
+                            tail_after = nxt(g) + 1
+                            dedup = False
+                            if t.text == 'iter' and toks[d].text == 'map' and 'HashSet' in turbo:
+                                # `.collect::<HashSet<_>>()` de-duplicates; the usual continuation `.into_iter().collect()` turns the
+                                # set back into a Vec (arbitrary order): the pair becomes `.dedup_hashset_()`
+                                seq = []
+                                qq = nxt(nxt(g))
+                                for _ in range(8):
+                                    if qq < n:
+                                        seq.append(qq)
+                                        qq = nxt(qq)
+                                txt8 = ''.join(toks[x].text for x in seq)
+                                if txt8.startswith('.into_iter().collect()'):
+                                    tail_after = seq[7] + 1
+                                    dedup = True
+                                else:
+                                    raise ExtractError('collect::<HashSet<_>>() without `.into_iter().collect()` is not supported by the rewrite rules')
                             if t.text == 'iter' and toks[d].text == 'map':
                                 nm = 'iter_try_map' if 'Result' in turbo else 'iter_map'
                             elif t.text == 'into_iter' and toks[d].text == 'filter':
@@ -569,7 +586,10 @@ class Rewriter:
                                 out.append(T('punct', '(', toks[e0].start))
                                 out.extend(self.basic(toks[e0 + 1:e1], in_const))
                                 out.append(T('punct', ')', toks[e1].start))
-                                k = nxt(g) + 1
+                                if dedup:
+                                    out.append(T('raw', '.dedup_hashset_()', toks[e1].start))
+                                    self.rec('R5', '.collect::<HashSet<_>>().into_iter().collect()', '.dedup_hashset_()')
+                                k = tail_after
                                 continue
             # R5: `.iter().filter(P).count()` -> `.iter_count(P)`  (a `|&x|` parameter pattern becomes `|x|`: the helper passes `&T`)
             if is_id(t, 'iter') and prv_out() is not None and is_p(prv_out(), '.'):
